@@ -209,31 +209,45 @@ def run(ctx):
         eb = ExprBuilder(f)
         enc = f.calls_to(SB + "::encoding")
         bs = f.calls_to(SB + "::bom_sniffing")
-        pred = lambda e: mentions_field(e, HI, "encoding")
-        if len(enc) == 1 and W.guard_variant(f, eb, [enc[0].bb], pred, "Some"):
-            e = eb.operand(enc[0].args[1])
-            if e.k == "agg" and e[2] == "Some" and any(x.k == "dc" and x[2] == "Some" for x in walk(e)):
-                r.ok("label", "EncodingMode::Some(enc) ⇒ encoding(Some(enc))", fn=f)
-            else:
-                r.bad("label", "an explicit --encoding label is passed as `%s`" % show(e)[:60], fn=f, construct="label")
+        # value table: self.encoding ∈ {Auto, Some(label), Disabled}; the outcome is which of the two builder calls run and with
+        # what. A match, an if-let chain or a helper read the same.
+        from ..flow import Sccp as _Sccp, combinator_model as _cm
+        res = {}
+        for mode in ("Auto", "Some", "Disabled"):
+            seen = {"encoding": [], "bom_sniffing": []}
+
+            def fm(owner, name, mode=mode):
+                if owner == HI and name == "encoding":
+                    return V(mode, ("i", 77) if mode == "Some" else None)
+                return None
+
+            def inner(call, argv, seen=seen):
+                if call.path == SB + "::encoding":
+                    seen["encoding"].append(argv[1] if len(argv) > 1 else None)
+                if call.path == SB + "::bom_sniffing":
+                    seen["bom_sniffing"].append(argv[1] if len(argv) > 1 else None)
+                if call.path.endswith("Clone::clone") and argv and argv[0] is not None:
+                    return argv[0]
+                return None
+            _Sccp(f, call_model=_cm(facts, inner, field_model=fm), field_model=fm).run([(0, {})])
+            res[mode] = seen
+        if len(enc) >= 1 and res["Some"]["encoding"] and all(v is not None and v[0] == "v" and v[1] == "Some" for v in res["Some"]["encoding"]) \
+                and not res["Auto"]["encoding"] and not res["Disabled"]["encoding"]:
+            r.ok("label", "EncodingMode::Some(enc) ⇒ encoding(Some(enc)), and only then", fn=f)
+        elif res["Some"]["encoding"] and not res["Auto"]["encoding"] and not res["Disabled"]["encoding"]:
+            r.bad("label", "an explicit --encoding label is passed as `%s`" % (res["Some"]["encoding"],), fn=f, construct="label")
         else:
             r.bad("label", "SearcherBuilder::encoding is not called exactly under EncodingMode::Some", fn=f, construct="label")
-        if len(bs) == 1 and W.guard_variant(f, eb, [bs[0].bb], pred, "Disabled") and W.const_val(eb.operand(bs[0].args[1])) == 0:
-            r.ok("none", "EncodingMode::Disabled ⇒ bom_sniffing(false)", fn=f)
+        if res["Disabled"]["bom_sniffing"] == [I(0)] and not res["Auto"]["bom_sniffing"] and not res["Some"]["bom_sniffing"]:
+            r.ok("none", "EncodingMode::Disabled ⇒ bom_sniffing(false), and only then", fn=f)
         else:
             r.bad("none", "--encoding none does not disable BOM sniffing (exactly under EncodingMode::Disabled)", fn=f, construct="none")
-        arms, info = W.variant_arms(f, eb, pred)
-        em = [i for i in info if i[1] == "rg::flags::lowargs::EncodingMode"]
-        if em:
-            auto_t = arms.get("Auto", em[0][3])
-            s = Sccp(f, stop_blocks=set()).run([(auto_t, {})])
-            touched = [c for c in enc + bs if c.bb in s.exec_blocks]
-            if touched:
-                r.bad("auto", "EncodingMode::Auto changes the searcher's encoding settings", fn=f)
-            else:
-                r.ok("auto", "EncodingMode::Auto ⇒ searcher defaults (BOM sniffing on, no label)", fn=f)
+        if res["Auto"]["encoding"] or res["Auto"]["bom_sniffing"]:
+            r.bad("auto", "EncodingMode::Auto changes the searcher's encoding settings", fn=f)
+        elif not (enc and bs):
+            r.bad("auto", "anchor-missing: SearcherBuilder::encoding / bom_sniffing calls in HiArgs::searcher", fn=f)
         else:
-            r.bad("auto", "anchor-missing: match on EncodingMode", fn=f)
+            r.ok("auto", "EncodingMode::Auto ⇒ searcher defaults (BOM sniffing on, no label)", fn=f)
         for m, fld in (("encoding", "encoding"), ("bom_sniffing", "bom_sniffing")):
             g = facts.fn(SB + "::" + m)
             _, w, _ = field_rw(g)
